@@ -14,3 +14,7 @@ claim("C02",
       "property-based differential test: lentil propagation vs extended-precision Fraunhofer sum of an independently modelled input field",
       "Each generated optical configuration (aperture chain, per-axis pixel scales, wavelength, focal length, oversampling, output shape, propagation shape, output mask, optional image->pupil leg) is propagated with lentil and compared sample by sample with the longdouble defining sum of the model field on the evaluated window, exact zero outside it, plus the result's metadata.",
       "Input field comes from the plane model (pointwise phasors), so Plane.multiply is covered too; chains with a single-sample intermediate field are excluded (one-element fields are infinite constants by C06); bounded sizes.")
+claim("C03",
+      "property-based differential test (segmented vs monolithic description) plus reference Fraunhofer sum; metamorphic sub-array/offset relation for dft2",
+      "Each generated aperture is described once by its union mask and once by a generated partition into 1..5 segment masks (stripes, Voronoi, interleaved and random label maps, overlapping bounding boxes), optionally followed by a second (segmented) plane; field and intensity must agree before and after propagation and with the coherent longdouble Fraunhofer sum. dft2 of a cropped sub-array with its offset must equal dft2 of the zero-padded whole.",
+      "Single-sample segments / one-sample output windows are excluded by construction (listed known finding, probed on every run); bounded sizes; 1e-11 relative comparisons between two summation orders.")
